@@ -1,6 +1,6 @@
 (** C19 — shard routing is total, in range and stable.
     Only statements, each closed by [exact] of a lemma proved elsewhere. *)
-From Coq Require Import List NArith Lia.
+From Coq Require Import List NArith ZArith Lia.
 From Verif Require Import Base.BStr Persist.ShardId Persist.ShardId_proofs.
 Import ListNotations.
 Open Scope N_scope.
@@ -34,6 +34,12 @@ Theorem C19_steps : forall n j : N, 2 ^ j < n <= 2 ^ (j + 1) ->
   mask_high n = 2 ^ (j + 1) - 1 /\ mask_low n = 2 ^ j - 1 /\ bytes_needed n = j / 8 + 1.
 Proof. exact steps_fields. Qed.
 
+(** the constructor's domain: every int32 shard count NewShardIDProvider accepts satisfies the hypotheses of the theorems
+    above (2 <= n < 2^31), and it accepts every such count *)
+Theorem C19_constructor_domain : forall z : Z, (-2147483648 <= z < 2147483648)%Z ->
+  (provider_accepts z = true <-> 2 <= Z.to_N z /\ Z.to_N z < 2147483648 /\ (0 <= z)%Z).
+Proof. exact provider_accepts_spec. Qed.
+
 (** non-vacuity: a concrete non-power-of-two shard count where the low mask is used *)
 Example C19_nonvacuous :
   compute_id 5 [1; 2; 7] = 3 /\ compute_id 5 [0; 6] = 2 /\ compute_id 300 [9; 1; 44] = 300 - 256 /\ compute_id 2 [] = 0.
@@ -45,3 +51,4 @@ Print Assumptions C19_same_suffix_same_shard.
 Print Assumptions C19_onto.
 Print Assumptions C19_no_overflow.
 Print Assumptions C19_steps.
+Print Assumptions C19_constructor_domain.
